@@ -31,64 +31,89 @@ import "github.com/dcaiafa/lox/internal/base/set"
 // First(D), and '+' by First('+'). Finally ε is in the final result only
 // because First(D) includes it.
 func First(g *Grammar, syms []Term) set.Set[*Terminal] {
-	visited := new(set.Set[Term])
-	if len(syms) == 1 {
-		return first(g, visited, syms[0])
-	}
 	var firstSet set.Set[*Terminal]
 	for _, sym := range syms {
-		partialFirst := first(g, visited, sym)
-		firstSet.AddSet(partialFirst)
-
 		// If sym[i] includes ε, include FIRST(sym[i+1]) in FIRST(syms).
 		// Otherwise, stop now.
-		if !partialFirst.Has(Epsilon) {
-			firstSet.Remove(Epsilon)
-			break
+		if !addFirst(g, &firstSet, sym) {
+			return firstSet
 		}
 	}
+	// Every symbol can derive ε; so can the whole string.
+	firstSet.Add(Epsilon)
 	return firstSet
 }
 
-func first(g *Grammar, visited *set.Set[Term], s Term) set.Set[*Terminal] {
+// addFirst adds FIRST(s) minus ε to firstSet. It returns whether FIRST(s)
+// includes ε.
+func addFirst(g *Grammar, firstSet *set.Set[*Terminal], s Term) bool {
 	if terminal, ok := s.(*Terminal); ok {
-		return set.New[*Terminal](terminal)
+		firstSet.Add(terminal)
+		return false
 	}
-
-	// Productions can contain recursion.
-	// E.g.: xs = xs x | x
-	if visited.Has(s) {
-		return set.Set[*Terminal]{}
+	ruleFirst := g.ruleFirstSets()[s.(*Rule)]
+	if ruleFirst == nil {
+		return false
 	}
-	visited.Add(s)
-
-	rule := s.(*Rule)
-	firstSet := set.Set[*Terminal]{}
-	for _, prod := range rule.Prods {
-		if len(prod.Terms) == 0 {
-			firstSet.Add(Epsilon)
-			continue
+	hasEpsilon := false
+	ruleFirst.ForEach(func(t *Terminal) {
+		if t == Epsilon {
+			hasEpsilon = true
+			return
 		}
+		firstSet.Add(t)
+	})
+	return hasEpsilon
+}
 
-		addEpsilon := true
-		for _, term := range prod.Terms {
-			termFirst := first(g, visited, term)
-			hasEpsilon := false
-			termFirst.ForEach(func(s *Terminal) {
-				if s == Epsilon {
-					hasEpsilon = true
-					return
+// ruleFirstSets returns FIRST(r) for every rule r of the grammar. Productions
+// can be recursive (e.g.: xs = xs x | ε) and a rule can be reached many times
+// while the FIRST of a single symbol string is being computed, so the sets are
+// computed together, by iterating until no set changes. The result is cached
+// until the grammar is modified.
+func (g *Grammar) ruleFirstSets() map[*Rule]*set.Set[*Terminal] {
+	if g.firstSets != nil {
+		return g.firstSets
+	}
+	firstSets := make(map[*Rule]*set.Set[*Terminal], len(g.Rules))
+	for _, rule := range g.Rules {
+		firstSets[rule] = new(set.Set[*Terminal])
+	}
+	changed := true
+	for changed {
+		changed = false
+		for _, prod := range g.Prods {
+			ruleFirst := firstSets[prod.Rule]
+			if ruleFirst == nil {
+				ruleFirst = new(set.Set[*Terminal])
+				firstSets[prod.Rule] = ruleFirst
+			}
+			addEpsilon := true
+			for _, term := range prod.Terms {
+				var termFirst set.Set[*Terminal]
+				if terminal, ok := term.(*Terminal); ok {
+					termFirst.Add(terminal)
+				} else if ruleTermFirst := firstSets[term.(*Rule)]; ruleTermFirst != nil {
+					termFirst = *ruleTermFirst
 				}
-				firstSet.Add(s)
-			})
-			if !hasEpsilon {
-				addEpsilon = false
-				break
+				hasEpsilon := false
+				termFirst.ForEach(func(s *Terminal) {
+					if s == Epsilon {
+						hasEpsilon = true
+						return
+					}
+					changed = ruleFirst.Add(s) || changed
+				})
+				if !hasEpsilon {
+					addEpsilon = false
+					break
+				}
+			}
+			if addEpsilon {
+				changed = ruleFirst.Add(Epsilon) || changed
 			}
 		}
-		if addEpsilon {
-			firstSet.Add(Epsilon)
-		}
 	}
-	return firstSet
+	g.firstSets = firstSets
+	return firstSets
 }
